@@ -24,5 +24,6 @@ def run_deductive(rep):
         ("wsum.scale_invariance", [c > 0, Bs != 0], (c * A) / (c * Bs) == A / Bs),
         ("wsum.unit_weights_are_the_unweighted_form", [Bs != 0], (1 * A) / (1 * Bs) == A / Bs)]
     prove_all(rep, "lemma::wsum.multiplicity", jobs)
-    items = [(ScalarShape(f, True), []) for f in ("selection_rate", "mean_prediction")]
+    from ..contracts.base_metrics import Rate
+    items = [(ScalarShape(f, w), []) for f in ("selection_rate", "mean_prediction") for w in (True, False)] + [(Rate(f), []) for f in Rate.COMPONENT]
     verify.verify_many(rep, items)
